@@ -166,6 +166,9 @@ CONSTRAINED = [
     "increase number of radical (h1) }",
     "rule k4{ reactant r1{ C. labeled c1 {has 1 radical electrons, in ring of size >3} C labeled c2 single bond to c1 } "
     "modify number of radical (c1, 12) increase number of radical (c2) }",
+    # formulas with two-letter element symbols: a text may break off right after the lower-case letter
+    "rule k5{ reactant r1{ C labeled c1 H labeled h1 single bond to c1 } constraints{ r1.formula is CH3Cl || "
+    "r1.formula is Na } break bond(c1,h1) increase number of radical (c1) increase number of radical (h1) }",
 ]
 
 
